@@ -272,7 +272,7 @@ class CFG(object):
                     changed = True
         return dom
 
-    def postdominators(self):
+    def postdominators(self, exit_only=False):
         """pdom[n.id] = set of node ids post-dominating n, w.r.t. exit and noreturn sinks
         (a virtual sink joins exit and all noreturn nodes)."""
         reach = self.reachable()
@@ -283,7 +283,7 @@ class CFG(object):
         for i in ids:
             n = self.nodes[i]
             ss = [m.id for _, m in n.succs if m.id in reach]
-            if n.kind in ('exit', 'noreturn') or not ss:
+            if n.kind == 'exit' or (not exit_only and (n.kind == 'noreturn' or not ss)):
                 ss = ss + [SINK]
             succs[i] = ss
         pdom = {i: set(allset) for i in ids}
@@ -292,6 +292,8 @@ class CFG(object):
         while changed:
             changed = False
             for i in reversed(ids):
+                if not succs[i]:
+                    continue      # paths ending in m4ri_die: vacuously post-dominated (exit_only)
                 new = set.intersection(*[pdom[s] for s in succs[i]]) | {i}
                 if new != pdom[i]:
                     pdom[i] = new
